@@ -16,7 +16,7 @@ pub static DEF: PropDef = PropDef {
 padding to reach a multiple of 16; block 1 XOR MD5(type, secret, rv), block i XOR MD5(secret, ciphertext block i-1)) using the harness's own MD5; |value| = 16*ceil((2+|payload|+|lp|)/16); the attribute type is \
 unchanged, the wire form carries the H bit and the clear type; the value does not change when only the unused tail of the alignment padding changes, nor across repeated calls. \
 (backward) G-hidden tapes (random values and crafted plaintexts encrypted with the reference key schedule): reveal(h,s,rv) must equal the reference reveal (equal Ok value, or both Err). \
-(related secrets) the same AVP, random vector and paddings hidden and revealed under two related secrets (prefix, extension, two octets swapped incl. 8 apart, a neighbouring pair changed by (+1,-31), same length different content, empty) back to back on one thread, every result against the reference; in 4 % of these cases four threads hide and reveal different AVPs under different secrets concurrently instead. Non-trivial = at least 2 cipher blocks (chaining exercised); distinct by hash of the inputs.",
+(related secrets) the same AVP, random vector and paddings hidden and revealed under two related secrets (prefix, extension, two octets swapped incl. 8 apart, a neighbouring pair changed by (+1,-31), same length different content, empty) back to back on one thread, every result against the reference; in 4 % of these cases four threads hide and reveal different AVPs under different secrets concurrently instead, and in another 4 % hide and reveal are called from a destructor while the thread unwinds and from thread-local destructors at thread exit. Non-trivial = at least 2 cipher blocks (chaining exercised); distinct by hash of the inputs.",
     assumptions: &[
         "the harness's own MD5 (RFC 1321, self-tested against the RFC vectors and against the md5 crate at padding-boundary lengths) and reference cipher are the trusted base",
         "the original-length subfield holds the total original AVP length (6 + payload), the crate's convention (DESIGN.md section 0)",
@@ -134,7 +134,19 @@ pub fn check_backward(h: &HiddenCase, cx: &mut Cx) -> Res {
             // where a property states the error of a per-type fault (C20: truncated value, invalid UTF-8, unknown message type,
             // bad error type, unknown attribute type) the revealed AVP's error is that one too
             if let Some(want) = expected_error(se) {
-                if matches!(se, SErr::Incomplete(_) | SErr::BadUtf8(_) | SErr::UnknownMsgType(_) | SErr::BadErrorType(_) | SErr::UnknownAvp(_)) && ce != want {
+                // ... provided the decrypted value has that fault *only*: a Result Code with a bad error type may also carry a
+                // non-UTF-8 message, and which of two faults is reported is left open (found with property-preserving change EQ-2-a)
+                let single = match se {
+                    SErr::BadErrorType(_) => {
+                        let pt = decrypt(h.attr, &h.value, &h.secret, &h.rv);
+                        let total = ((pt[0] as usize) << 8) | pt[1] as usize;
+                        let payload = &pt[2..2 + (total - 6)];
+                        payload.len() <= 4 || std::str::from_utf8(&payload[4..]).is_ok()
+                    }
+                    SErr::Incomplete(_) | SErr::BadUtf8(_) | SErr::UnknownMsgType(_) | SErr::UnknownAvp(_) => true,
+                    _ => false,
+                };
+                if single && ce != want {
                     let mut v = render();
                     v["crate_error"] = json!(format!("{:?}", ce));
                     v["expected_error"] = json!(format!("{:?}", want));
@@ -233,10 +245,54 @@ fn check_concurrent(t: &mut Tape, cx: &mut Cx) -> Res {
     Ok(())
 }
 
+/// "the output depends on nothing but these inputs": not on the state of the calling thread either. hide and reveal are called
+/// from a destructor while the thread unwinds and from thread-local destructors at thread exit; every result against the reference
+fn check_contexts(t: &mut Tape, cx: &mut Cx) -> Res {
+    cx.eval();
+    let h = gen_hide(t);
+    let want_value = hide(h.avp.attr, &h.payload, &h.secret, &h.rv, &h.lp, &h.ap);
+    let (a, s, rv, lp, ap, attr) = (to_crate(&h.avp), h.secret.clone(), h.rv, h.lp.clone(), h.ap, h.avp.attr);
+    let wv = want_value.clone();
+    let f: std::sync::Arc<dyn Fn() -> String + Send + Sync> = std::sync::Arc::new(move || {
+        match guard(|| {
+            let hid = a.clone().hide(&s, &rv.into(), &lp, &ap);
+            match &hid {
+                AVP::Hidden(x) if x.value == wv && x.attribute_type == attr => {}
+                AVP::Hidden(x) => return format!("hide() returned the value {} (type {})", hex_short(&x.value), x.attribute_type),
+                _ => return "hide() did not return a hidden AVP".to_string(),
+            }
+            match hid.reveal(&s, &rv.into()) {
+                Ok(b) if b == a => "ok".to_string(),
+                other => format!("reveal() returned {:?}", other.map(|x| from_crate(&x))),
+            }
+        }) {
+            Caught::Ok(s) => s,
+            Caught::Panic(p) => p.short(),
+            Caught::Monitor(_) => "panic".to_string(),
+        }
+    });
+    cx.stage(STAGE_UNATTRIBUTED);
+    let r = crate::props::history::same_in_contexts("ok", f);
+    cx.stage(STAGE_SETUP);
+    match r {
+        Ok(true) => {
+            cx.class("hide and reveal also called while unwinding and from thread-local destructors at thread exit");
+            cx.nontrivial(&(&h.payload, &h.secret, 22u8));
+            Ok(())
+        }
+        Ok(false) => Ok(()),
+        Err((how, got)) => fail(
+            format!("called {}: {} (reference value {})", how, got, hex_short(&want_value)),
+            json!({"avp": format!("{:?}", crate::props::c07_abbrev(&h.avp)), "secret": hex(&h.secret), "random_vector": hex(&h.rv), "length_padding": hex_short(&h.lp)}),
+        ),
+    }
+}
+
 fn run_tape(part: &str, tape: &[u8], cx: &mut Cx) -> Res {
     let mut t = Tape::new(tape);
     match part {
         "related-secrets" if t.chance(4) => check_concurrent(&mut t, cx),
+        "related-secrets" if t.chance(4) => check_contexts(&mut t, cx),
         "related-secrets" => check_related(&mut t, cx),
         "forward" => {
             crate::props::history::prior_ops(&mut t, cx, true);
